@@ -59,6 +59,13 @@ BLOCKS: Dict[str, Callable[[W], Tuple[Any, ...]]] = {
     'ulist': lambda w: bullets(w), 'ulist1': lambda w: bullets(w, two=False), 'ulist-nested': lambda w: bullets(w, nested=True),
     'ulist-para2': lambda w: bullets(w, para2=True),
     'olist': lambda w: ('olist', [[('plain', w())], [('plain', w())]]),
+    # a list item whose (one-line / wrapped) paragraph introduces a literal block, followed by more of the same item.  In epytext a literal
+    # block ends at the indentation of the paragraph that introduces it, which for a ONE-line item paragraph is the bullet's: the one-line
+    # variant is reST only
+    'ulist-lit': lambda w: ('listlit', '-', [[('plain', w()), ('plain', w())]], [f'{w()} = f(1,   2)', f'  {w()}  # keep   spacing'], [('plain', w()), ('ital', w()), ('code', w())], [('plain', w())]),
+    'ulist-lit-wrapped': lambda w: ('listlit', '-', [[('plain', w()), ('plain', w())], [('bold', w()), ('plain', w())]], [f'{w()} = f(1,   2)', f'  {w()}  # keep   spacing'],
+                                    [('plain', w()), ('ital', w()), ('code', w())], [('plain', w())]),
+    'olist-lit-wrapped': lambda w: ('listlit', '1.', [[('plain', w()), ('plain', w())], [('plain', w())]], [f'{w()} <&> {w()}'], [('code', w())], None),
     'literal': lambda w: ('literal', w(), [f'{w()}  <&> {w()}', f'  {w()}', '', f'{w()}']),
     'doctest': lambda w: ('doctest', [f'>>> {w()} = 1', f'... {w()}', f'{w()}']),
     'section': lambda w: ('section', w(), [('plain', w())]),
@@ -71,7 +78,7 @@ BLOCKS: Dict[str, Callable[[W], Tuple[Any, ...]]] = {
     'deflist': lambda w: ('deflist', w(), [('plain', w()), ('plain', w())]),
     'blockquote': lambda w: ('quote', [('plain', w()), ('plain', w())]),
 }
-RST_ONLY = {'codeblock', 'note-adm', 'versionchanged', 'deprecated-dir', 'versionadded-nobody', 'deflist', 'blockquote'}
+RST_ONLY = {'ulist-lit', 'codeblock', 'note-adm', 'versionchanged', 'deprecated-dir', 'versionadded-nobody', 'deflist', 'blockquote'}
 
 
 def inl(fmt: str, kind: str, word: str) -> str:
@@ -108,6 +115,15 @@ def ser_block(fmt: str, b: Tuple[Any, ...]) -> List[str]:
         ind = '  ' if fmt == 'epytext' else ''
         for i, item in enumerate(b[1], 1):
             L.append(f'{ind}{i}. ' + ser_inlines(fmt, item))
+    elif k == 'listlit':
+        ind = '  ' if fmt == 'epytext' else ''
+        cont = ind + ' ' * (len(b[1]) + 1)
+        plines = [ser_inlines(fmt, pl) for pl in b[2]]
+        plines[-1] += '::'
+        L = [f'{ind}{b[1]} {plines[0]}'] + [cont + x for x in plines[1:]] + [''] + [cont + '  ' + l for l in b[3]] + ['', cont + ser_inlines(fmt, b[4])]
+        if b[5]:
+            marker = b[1] if b[1] == '-' else '2.'
+            L += [f'{ind}{marker} ' + ser_inlines(fmt, b[5])]
     elif k == 'literal':
         L = [f'{b[1]}::', ''] + [('    ' + l if l else '') for l in b[2]]
     elif k == 'doctest':
@@ -132,7 +148,8 @@ def ser_block(fmt: str, b: Tuple[Any, ...]) -> List[str]:
 FIELDS_E = {
     'param': '@param a: {w}', 'return': '@return: {w}', 'raise': '@raise ValueError: {w}', 'note': '@note: {w}', 'see': '@see: {w}', 'author': '@author: {w}',
     'since': '@since: {w}', 'keyword': '@keyword k: {w}', 'type': '@type a: {w}', 'rtype': '@rtype: {w}', 'unknown': '@foo: {w}', 'warns': '@warns: {w}',
-    'yield': '@yield: {w}', 'param-multiline': '@param a: {w}\n    {w2}', 'param-kw': '@param k: {w}', 'raise2': '@raises KeyError: {w}', 'returns-syn': '@returns: {w}',
+    'yield': '@yield: {w}', 'ytype-only': '@ytype: {w}', 'rtype-only': '@rtype: {w}', 'type-only': '@type a: {w}', 'raise-noargdesc': '@raise ValueError:\n    {w}',
+    'param-literal-wrapped': '@param a: {w} {w2}\n    {w3}::\n\n      {w4}(x,   y)\n\n    {w5} closing.', 'param-multiline': '@param a: {w}\n    {w2}', 'param-kw': '@param k: {w}', 'raise2': '@raises KeyError: {w}', 'returns-syn': '@returns: {w}',
 }
 # where a field's token must appear: (section heading, cell)   cell in {'desc', 'arg', 'any'}
 FIELD_HOME = {
@@ -140,16 +157,17 @@ FIELD_HOME = {
     'return': ('Returns', None), 'returns-syn': ('Returns', None), 'rtype': ('Returns', None), 'raise': ('Raises', 'ValueError'), 'raise2': ('Raises', 'KeyError'),
     'note': ('Note', None), 'see': ('See Also', None), 'author': ('Author', None), 'since': ('Present Since', None), 'warns': ('Warns', None), 'yield': ('Yields', None),
     'unknown': ('Unknown Field: foo', None),
+    'ytype-only': ('Yields', None), 'rtype-only': ('Returns', None), 'type-only': ('Parameters', 'a'), 'raise-noargdesc': ('Raises', 'ValueError'), 'param-literal-wrapped': ('Parameters', 'a'),
 }
 NAP_FIELDS = {
     'google': {'param': 'Args:\n    a: {w}', 'return': 'Returns:\n    {w}', 'raise': 'Raises:\n    ValueError: {w}', 'note': 'Note:\n    {w}', 'see': 'See Also:\n    {w}',
                'keyword': 'Keyword Args:\n    k: {w}', 'type': 'Args:\n    a (int): {w}', 'rtype': 'Returns:\n    int: {w}', 'warns': 'Warns:\n    UserWarning: {w}', 'yield': 'Yields:\n    {w}',
-               'param-multiline': 'Args:\n    a: {w}\n        {w2}',
+               'param-multiline': 'Args:\n    a: {w}\n        {w2}', 'ytype-only': 'Yields:\n    {w}:', 'rtype-only': 'Returns:\n    {w}:',
                'param-literal': 'Args:\n    a: {w}::\n\n            {w2}(alpha, retries=3)\n\n        {w3} closing remark.'},
     'numpy': {'param': 'Parameters\n----------\na\n    {w}', 'return': 'Returns\n-------\nint\n    {w}', 'raise': 'Raises\n------\nValueError\n    {w}', 'note': 'Notes\n-----\n{w}',
               'see': 'See Also\n--------\nfoo : {w}', 'keyword': 'Other Parameters\n----------------\nk\n    {w}', 'type': 'Parameters\n----------\na : int\n    {w}',
               'rtype': 'Returns\n-------\nint\n    {w}', 'warns': 'Warns\n-----\nUserWarning\n    {w}', 'yield': 'Yields\n------\nint\n    {w}',
-              'param-multiline': 'Parameters\n----------\na\n    {w}\n    {w2}',
+              'param-multiline': 'Parameters\n----------\na\n    {w}\n    {w2}', 'ytype-only': 'Yields\n------\n{w}', 'rtype-only': 'Returns\n-------\n{w}',
               'param-literal': 'Parameters\n----------\na\n    {w}::\n\n        {w2}(alpha, retries=3)\n\n    {w3} closing remark.'},
 }
 FIELD_HOME['param-literal'] = ('Parameters', 'a')
@@ -172,7 +190,7 @@ def serialize(fmt: str, blocks: Sequence[Tuple[Any, ...]], fields: Sequence[str]
     for b in blocks:
         if L:
             L.append('')
-        if prev in ('literal', 'codeblock') and b[0] == 'quote' or prev == 'literal' and ( (fmt == 'epytext' and b[0] in ('ulist', 'olist'))):
+        if prev in ('literal', 'codeblock') and b[0] == 'quote' or prev == 'literal' and ( (fmt == 'epytext' and b[0] in ('ulist', 'olist', 'listlit'))):
             # a literal block swallows every following line that is indented deeper than the paragraph introducing it
             L += [w_sep(w), '']
         L += ser_block('restructuredtext' if fmt in NAP_FIELDS else fmt, b)
@@ -308,8 +326,8 @@ def judge(s: Any, fmt: str, combo: Sequence[str], fields: Sequence[str], res: Di
             break
     pres = [strip_tags(p) for p in re.findall(r'<pre[^>]*>(.*?)</pre>', body_html, flags=re.S)]
     for b in blocks:
-        if b[0] == 'literal':
-            lit = '\n'.join(b[2])
+        if b[0] in ('literal', 'listlit'):
+            lit = '\n'.join(b[2] if b[0] == 'literal' else b[3])
             if not any(textwrap.dedent(p).strip('\n') == textwrap.dedent(lit).strip('\n') for p in pres):
                 res['violations'].append(core.violation(f'literal-block-not-exact/{fmt}', f'{fmt}: literal block {lit!r} rendered as {pres}:\n{doc}', case))
         if b[0] == 'doctest':
